@@ -1,16 +1,26 @@
 (* Step-granular schedules (DESIGN.md section 3): a request is a thread that runs between yield points
    (the verifPoint hooks in server/db.go): [manager lookup | park 9/10] [critical section of Lock/UnLock + reply |
    park before the wake-up pass] [one wakeUpWaitLocks iteration | park 7] ...  A schedule is any list of
-   start / resume actions; sweeps run to completion.  All functions are those of Engine.v / Engine2.v. *)
+   start / resume actions.  A sweep either runs to completion ([SSweepT] / [SSweepE]) or is a thread too
+   ([SStartSweep]): [collection of the due locks of the elapsed seconds up to the first second that has any, under
+   the shard mutex | park 14/15] [critical section of doTimeOut / doExpried of ONE collected lock + reply | park 3/4
+   before its wake-up pass] [one wakeUpWaitLocks iteration | park 7] ... [next collected lock | park 14/15] ...
+   All functions are those of Engine.v / Engine2.v; SchedSweep.v proves that a sweep thread that is never
+   interleaved with anything computes sweep_timeouts / sweep_expiries. *)
 From Coq Require Import String.
 From Slock Require Import Engine.Types Engine.Queues Engine.Timers Engine.Engine Engine.Engine2.
 Open Scope N_scope.
 
 Inductive thread :=
 | TReq (conn : N) (c : cmd)     (* parked between the key-manager lookup and the shard mutex *)
-| TWake (w : wake) (epoch : N). (* parked before a wake-up pass / between two of its iterations; it holds a pointer to
+| TWake (w : wake) (epoch : N)  (* parked before a wake-up pass / between two of its iterations; it holds a pointer to
                                    the manager object of that moment: if the manager was removed meanwhile the pass
                                    reads `waited = false` on the dead object and ends *)
+| TSweep (is_t : bool)           (* true: checkTimeTimeOut, false: checkTimeExpried *)
+         (todo : list ref)       (* collected (popped from the wheel slot / long table, reference kept), not yet fired *)
+         (w : option (wake * N)) (* Some: parked before / inside the wake-up pass of the lock fired last (pass, epoch) *)
+         (t : Z) (secs : nat)    (* next second to collect, number of seconds left (t + secs = now-at-start + 1) *)
+         (nowv : Z).             (* `now` as read by the driver loop when the sweep started *)
 
 Record sstate := mkS { s_db : db; s_threads : list thread; s_epochs : amap N (* key -> number of removals so far *) }.
 
@@ -72,10 +82,83 @@ Fixpoint remove_nth {A} (n : nat) (l : list A) : list A :=
   | S n', x :: r => x :: remove_nth n' r
   end.
 
+Fixpoint set_nth {A} (n : nat) (l : list A) (x : A) : list A :=
+  match n, l with
+  | _, [] => []
+  | O, _ :: r => x :: r
+  | S n', y :: r => y :: set_nth n' r x
+  end.
+
+(* ---------------------------------------------------------------- a sweep as a thread *)
+Definition collect_gen (is_t : bool) (s : db) (t nowv : Z) : db * list ref * list event :=
+  if is_t then let '(s', due) := collect_timeouts s t nowv in (s', due, []) else collect_expiries s t nowv.
+
+Definition fire_gen (is_t : bool) : db -> ref -> db * list event * option wake :=
+  if is_t then do_timeout else do_expried.
+
+(* the collecting halves of the seconds t, t+1, ... (at most n of them) up to and including the first one that
+   collects anything: the goroutine does not reach a yield point in a second without due locks *)
+Fixpoint sweep_advance (n : nat) (is_t : bool) (s : db) (t nowv : Z) : db * list event * option (list ref * Z * nat) :=
+  match n with
+  | O => (s, [], None)
+  | S n' =>
+      let '(s1, due, e1) := collect_gen is_t s t nowv in
+      match due with
+      | [] => let '(s2, e2, r) := sweep_advance n' is_t s1 (t + 1)%Z nowv in (s2, e1 ++ e2, r)
+      | _ :: _ => (s1, e1, Some (due, (t + 1)%Z, n'))
+      end
+  end.
+
+(* where the sweep goes after a per-lock call (or its wake-up pass) has ended: the next collected lock (parks in
+   front of it), else the following seconds; None = the sweep has finished *)
+Definition sweep_next (is_t : bool) (s : db) (todo : list ref) (t : Z) (n : nat) (nowv : Z)
+  : db * list event * option thread :=
+  match todo with
+  | _ :: _ => (s, [], Some (TSweep is_t todo None t n nowv))
+  | [] =>
+      let '(s', ev, r) := sweep_advance n is_t s t nowv in
+      (s', ev, match r with
+               | Some (due, t', n') => Some (TSweep is_t due None t' n' nowv)
+               | None => None
+               end)
+  end.
+
+(* the head of the driver loop (checkTimeOut / checkExpried) + the first collection(s) *)
+Definition sweep_start (is_t : bool) (s : db) : db * list event * option thread :=
+  let nowv := now s in
+  let t0 := if is_t then checkT s else checkE s in
+  let s := if is_t then s <| checkT := (nowv + 1)%Z |> else s <| checkE := (nowv + 1)%Z |> in
+  sweep_next is_t s [] t0 (Z.to_nat (nowv + 1 - t0)) nowv.
+
+(* one step of a parked sweep: one wake-up iteration of the lock fired last, or the critical section of the next lock *)
+Definition sweep_resume (s : db) (ep : amap N) (is_t : bool) (todo : list ref) (w : option (wake * N))
+           (t : Z) (n : nat) (nowv : Z) : db * list event * option thread :=
+  match w with
+  | Some (wk, e0) =>
+      if negb (epoch_of ep (w_key wk) =? e0) then sweep_next is_t s todo t n nowv    (* dead manager object *)
+      else
+        let '(s', ev, r) := wake_iter s wk in
+        match r with
+        | WMore => (s', ev, Some (TSweep is_t todo w t n nowv))
+        | WDone => let '(s'', ev', th) := sweep_next is_t s' todo t n nowv in (s'', ev ++ ev', th)
+        end
+  | None =>
+      match todo with
+      | [] => (s, [], None)
+      | r :: rest =>
+          let '(s', ev, wo) := fire_gen is_t s r in
+          match wo with
+          | Some wk => (s', ev, Some (TSweep is_t rest (Some (wk, epoch_of ep (w_key wk))) t n nowv))
+          | None => let '(s'', ev', th) := sweep_next is_t s' rest t n nowv in (s'', ev ++ ev', th)
+          end
+      end
+  end.
+
 Inductive saction :=
 | SStart (conn : N) (c : cmd)
 | SResume (j : N)                 (* the (j mod #parked)-th parked thread, in creation order *)
 | SAdvance (k : Z) | SSweepT | SSweepE
+| SStartSweep (is_t : bool)       (* the sweep as a thread: runs up to its first yield point (14 / 15) *)
 | SAtomic (a : action).            (* any engine action run to completion (no yield) *)
 
 Definition sstep_raw (st : sstate) (a : saction) : sstate * list event :=
@@ -119,8 +202,14 @@ Definition sstep_raw (st : sstate) (a : saction) : sstate * list event :=
               | WDone => (mkS s' (remove_nth i th) ep, ev)
               | WMore => (mkS s' th ep, ev)
               end
+          | Some (TSweep is_t todo w t n nowv) =>
+              let '(s', ev, r) := sweep_resume s ep is_t todo w t n nowv in
+              (mkS s' (match r with Some x => set_nth i th x | None => remove_nth i th end) ep, ev)
           end
       end
+  | SStartSweep is_t =>
+      let '(s', ev, r) := sweep_start is_t s in
+      (mkS s' (match r with Some x => th ++ [x] | None => th end) ep, ev)
   | SAdvance k => (mkS (s <| now := (now s + k)%Z |>) th ep, [])
   | SSweepT => let '(s', ev) := sweep_timeouts s in (mkS s' th ep, ev)
   | SSweepE => let '(s', ev) := sweep_expiries s in (mkS s' th ep, ev)
